@@ -449,6 +449,8 @@ func (s *Sim) doAction(client string, a Action) {
 		s.settleReconf(client)
 	case "api-experiment":
 		s.apiExperiment()
+	case "import-experiment":
+		s.importExperiment()
 	case "drain:stopwait", "drain:stop+wait", "drain:stopall":
 		s.drain(client, strings.TrimPrefix(a.Op, "drain:"))
 	case "end":
